@@ -548,6 +548,9 @@ func (kgdb *KVInterfaceGDB) GetOutEdgeChannel(ctx context.Context, reqChan chan 
 										e.Label = label
 										e.Data = ge.Data.AsMap()
 										e.Loaded = true
+									} else {
+										// the edge record is gone (deleted since this view was opened): nothing to emit
+										continue
 									}
 								} else {
 									e.ID = string(eid)
@@ -605,6 +608,9 @@ func (kgdb *KVInterfaceGDB) GetInEdgeChannel(ctx context.Context, reqChan chan g
 										e.Label = label
 										e.Data = ge.Data.AsMap()
 										e.Loaded = true
+									} else {
+										// the edge record is gone (deleted since this view was opened): nothing to emit
+										continue
 									}
 								} else {
 									e.ID = string(eid)
